@@ -126,7 +126,19 @@ def kind(n):
             return "num"
         return "other"
     if isinstance(n, (ast.Attribute, ast.Subscript)):
-        if isinstance(n.value, (ast.Dict, ast.Tuple)):
+        if isinstance(n.value, ast.Dict):
+            # field access on a dict literal has the field's type
+            sel = n.attr if isinstance(n, ast.Attribute) else (n.slice.value if isinstance(n.slice, ast.Constant) else None)
+            for k, v in zip(n.value.keys, n.value.values):
+                if isinstance(k, ast.Constant) and k.value == sel and isinstance(sel, str) and sel.isidentifier():
+                    import keyword
+
+                    if all(isinstance(kk, ast.Constant) and isinstance(kk.value, str) and kk.value.isidentifier() and not keyword.iskeyword(kk.value) for kk in n.value.keys):
+                        return kind(v)
+            return "other"
+        if isinstance(n.value, ast.Tuple):
+            if isinstance(n, ast.Subscript) and isinstance(n.slice, ast.Constant) and type(n.slice.value) is int and 0 <= n.slice.value < len(n.value.elts):
+                return kind(n.value.elts[n.slice.value])
             return "other"
         # attribute of a dict-typed value (e.g. IfExp of dicts) - keep conservative
         return "unknown" if kind(n.value) in ("unknown", "num", "bool", "str") else "other"
